@@ -31,6 +31,7 @@ def parseHex (s : String) : Option Nat :=
 
 def rdF : Rd Float := do
   let t ← next
+  if t == "xNaN" then return (0.0 / 0.0 : Float)
   match t.toList with
   | 'x' :: rest => match parseHex (String.ofList rest) with
     | some n => pure (Float.ofBits n.toUInt64)
